@@ -14,6 +14,7 @@ import ArvVerif.Proofs.C06_Progress
 import ArvVerif.Proofs.C06_Sched
 import ArvVerif.Proofs.C06_Index
 import ArvVerif.Proofs.C06_Run
+import ArvVerif.Proofs.C06_GCS_Queue
 namespace ArvVerif.C06
 
 /-! ## (a) paging -/
@@ -288,6 +289,57 @@ theorem C06_getCurrentState_error (dd : Bool) (idx : List Bool) (scanF procF : B
     · exact Or.inr (Or.inl ⟨b, hb, hbt⟩)
     · exact Or.inr (Or.inr (Or.inl h))
     · exact Or.inr (Or.inr (Or.inr h))
+
+/-! ### GetCurrentState as a small-step system (Model/C06_GCS.lean) -/
+
+/-- For every number of index workers, every `collQ` capacity and **every interleaving** of the
+goroutines' statements (every reachable state of the small-step system, with `IndexMount`,
+`addCollection` and the page requests failing whenever the environment chooses): when all
+goroutines have ended, `GetCurrentState` returns a non-nil error iff some index fetch, some
+`addCollection` or the collection scan failed — and the `errs` channel never holds a nil error,
+so the first reported error is what is returned. -/
+theorem C06_gcs_first_error (n cap : Nat) (g : GCS.G) (r : GCS.Reach n cap g) (ht : GCS.Terminal g) :
+    (GCS.resultIsError g = true ↔ GCS.Failed g) ∧ g.sh.errs ≠ some false :=
+  GCS.result_iff_failed r ht
+
+/-- … and when it returns nil the view is complete: every index worker fetched its index and reached
+`AddReplicas`, the scanner closed the queue, and every collection it delivered was added by
+`addCollection` (none dropped, none left in the queue). Together with `C06_paging_complete` and
+`C06_index_truncation` this is the "complete view" that `Run` commits on. -/
+theorem C06_gcs_nil_is_complete (n cap : Nat) (g : GCS.G) (r : GCS.Reach n cap g) (ht : GCS.Terminal g)
+    (hnil : g.sh.errs = none) :
+    (∀ l ∈ g.ws, l.flag = false ∧ l.added = true) ∧
+    g.sh.added = g.sh.delivered ∧ g.sh.dropped = 0 ∧ g.sh.q = 0 ∧ g.sh.closed = true :=
+  ⟨GCS.nil_result_workers_added r ht hnil, GCS.nil_result_all_added r ht hnil⟩
+
+section examples_gcs
+open GCS
+/-- one index worker whose request fails, while one collection is delivered and added -/
+def exScriptFail : List Move :=
+  [.s 0, .s 1, .s 0, .s 0, .p 0, .p 0, .p 0,          -- scanner delivers a collection, processor adds it
+   .w 0 0, .w 0 0, .w 0 1, .w 0 0, .w 0 0,            -- IndexMount fails; error sent
+   .p 0,                                              -- processor notices len(errs) > 0
+   .w 0 0, .w 0 0,                                    -- cancel; return
+   .p 0, .s 2, .s 0, .s 0, .p 0, .p 0, .p 0]          -- processor drains after the scanner closes collQ
+/-- no failure: two workers, one collection -/
+def exScriptOk : List Move :=
+  [.w 0 0, .w 0 0, .w 0 0, .w 0 0, .w 0 0, .w 0 0, .w 0 0, .w 0 0, .w 0 1, .w 0 0,
+   .w 1 0, .w 1 0, .w 1 0, .w 1 0, .w 1 0, .w 1 0, .w 1 0, .w 1 0, .w 1 1, .w 1 0,
+   .s 0, .s 1, .s 0, .s 0, .p 0, .p 0, .p 0, .p 0, .s 2, .s 0, .s 0, .p 0]
+
+/-- both scripts are executions of the system (so their end states are reachable) … -/
+example : ∀ g, moves (GCS.init 1 4) exScriptFail = some g → GCS.Reach 1 4 g :=
+  fun g h => moves_reach _ _ g .start h
+example : ∀ g, moves (GCS.init 2 4) exScriptOk = some g → GCS.Reach 2 4 g :=
+  fun g h => moves_reach _ _ g .start h
+/-- … ending with every goroutine finished: (terminal, result is an error, worker failed, delivered, added) -/
+example : (moves (GCS.init 1 4) exScriptFail).map
+    (fun g => (terminalB g, resultIsError g, g.ws.map (·.flag), g.sh.delivered, g.sh.added)) =
+    some (true, true, [true], 1, 1) := by decide +kernel
+example : (moves (GCS.init 2 4) exScriptOk).map
+    (fun g => (terminalB g, g.sh.errs, g.ws.map (·.added), g.sh.delivered, g.sh.added)) =
+    some (true, none, [true, true], 1, 1) := by decide +kernel
+end examples_gcs
 
 /-- `CheckSanityLate` refuses a sweep whose collection scan delivered nothing. -/
 theorem C06_sanity_late_refuses_empty_scan (deferred anyDesired : Bool) (repl : Int) :
